@@ -1,5 +1,5 @@
 use super::field_utils::{parse_name_and_address, parse_party_identifier};
-use super::swift_utils::{parse_bic, parse_max_length};
+use super::swift_utils::{parse_bic, parse_max_length, parse_swift_chars};
 use crate::errors::ParseError;
 use crate::traits::SwiftField;
 use serde::{Deserialize, Serialize};
@@ -107,7 +107,9 @@ impl SwiftField for Field54B {
 
         // Check for party identifier on first line
         if !lines.is_empty() && lines[0].starts_with('/') {
-            party_identifier = Some(lines[0].to_string());
+            let party_id = parse_max_length(lines[0], 35, "Field54B party_identifier")?;
+            parse_swift_chars(&party_id, "Field54B party_identifier")?;
+            party_identifier = Some(party_id);
             line_idx = 1;
         }
 
@@ -118,7 +120,9 @@ impl SwiftField for Field54B {
             });
         }
         if line_idx < lines.len() && !lines[line_idx].is_empty() {
-            location = Some(parse_max_length(lines[line_idx], 35, "Field54B location")?);
+            let loc = parse_max_length(lines[line_idx], 35, "Field54B location")?;
+            parse_swift_chars(&loc, "Field54B location")?;
+            location = Some(loc);
         }
 
         Ok(Field54B {
